@@ -217,7 +217,7 @@ pub async fn run_op2(ctx: &Ctx, op: AOp, info: &Rc<TaskInfo>, handle: Handle) {
                 Some((_, Chan::UnclaimedSender(u, tag))) => {
                     let r = if op.d % 8 == 7 && !ctx.no_cancel.get() {
                         // Cancel the claim while it is in flight.
-                        match CancelAfter::new(u.claim(), 1 + (op.d >> 3) % 2).await {
+                        match cancelling(info, u.claim(), 1 + (op.d >> 3) % 2).await {
                             Some(r) => r,
                             None => {
                                 ctx.probe("claim-cancelled");
@@ -244,7 +244,7 @@ pub async fn run_op2(ctx: &Ctx, op: AOp, info: &Rc<TaskInfo>, handle: Handle) {
                 }
                 Some((_, Chan::UnclaimedReceiver(u, tag))) => {
                     let r = if op.d % 8 == 7 && !ctx.no_cancel.get() {
-                        match CancelAfter::new(u.claim(1 + op.b % 16), 1 + (op.d >> 3) % 2).await {
+                        match cancelling(info, u.claim(1 + op.b % 16), 1 + (op.d >> 3) % 2).await {
                             Some(r) => r,
                             None => {
                                 ctx.probe("claim-cancelled");
@@ -277,14 +277,14 @@ pub async fn run_op2(ctx: &Ctx, op: AOp, info: &Rc<TaskInfo>, handle: Handle) {
             let polls = 1 + op.b % 4;
             match t {
                 Some((_, Chan::PendingSender(p, tag))) => {
-                    match CancelAfter::new(p.establish(), polls).await {
+                    match cancelling(info, p.establish(), polls).await {
                         Some(Ok(s)) => spawn_end(ctx, Chan::Sender(s, tag), 1 + op.c % 10, op.d, false),
                         Some(Err(e)) => ctx.check_err("PendingSender::establish", &e),
                         None => ctx.probe("establish-cancelled"),
                     }
                 }
                 Some((_, Chan::PendingReceiver(p, tag))) => {
-                    match CancelAfter::new(p.establish(), polls).await {
+                    match cancelling(info, p.establish(), polls).await {
                         Some(Ok(r)) => spawn_end(ctx, Chan::Receiver(r, tag), 0, op.d, false),
                         Some(Err(e)) => ctx.check_err("PendingReceiver::establish", &e),
                         None => ctx.probe("establish-cancelled"),
